@@ -478,3 +478,100 @@ def tl_end_reverse(self, g):
     g.adj = 0
     assert self._r == 0, "C08:r_reset_at_EndReverse_iff_more_passes"
     assert not self.is_exhausted, "C09:is_exhausted_false_while_actions_remain"
+
+
+# ---------------------------------------------------------------------------- Mixed
+# Store = LIFO stack in self._storage: entry i = (g.ck[i], g.cs[i], g.cov[i]) with kind
+# g.ck[i] == 4 (restart data, covers [cs, cov)) or 3 (adjoint dependencies of step cs, cov == cs+1).
+def mx_init(self, g):
+    g.N = self._max_n
+    g.known = True
+    g.ck = []
+    g.cs = []
+    g.cov = []
+    init_common(self, g)
+
+
+def mx_forward(self, g, n0, n1, write_ics, write_adj_deps, storage):
+    forward_common(self, g, n0, n1, write_ics, write_adj_deps, storage)
+    assert storage != StorageType.NONE, "C18:forward_storage_used"
+    g.fwd = n1
+    if storage == StorageType.WORK:
+        work_forward(self, g, n0, n1, write_ics, write_adj_deps)
+    else:
+        k = len(g.cs)
+        assert storage == self._storage, "C03:only_the_chosen_storage"
+        assert k < self._snapshots, "C03:unit_available"
+        assert forall(0, k, lambda i: g.cs[i] != n0), "C01:no_overwrite"
+        if write_adj_deps:
+            assert n1 == n0 + 1, "C03:adjoint_dependencies_of_one_step_per_unit"
+            g.ck.append(3)
+        else:
+            g.ck.append(4)
+        g.cs.append(n0)
+        g.cov.append(n1)
+        g.wlo = 0
+        g.whi = 0
+    counters(self, g)
+    assert not self.is_exhausted, "C09:is_exhausted_false_while_actions_remain"
+
+
+def mx_end_forward(self, g):
+    end_forward_common(self, g)
+    counters(self, g)
+    assert not self.is_exhausted, "C09:is_exhausted_false_while_actions_remain"
+
+
+def mx_reverse(self, g, n1, n0, clear_adj_deps):
+    reverse_common(self, g, n1, n0, clear_adj_deps)
+    assert n1 == n0 + 1, "C12:one_step_of_dependencies"
+    assert g.wlo >= g.whi, "C12:work_holds_no_dependencies_after_reverse"
+    counters(self, g)
+    assert not self.is_exhausted, "C09:is_exhausted_false_while_actions_remain"
+
+
+def mx_load(self, g, n, from_storage, to_storage, is_move):
+    load_common(self, g, n, from_storage, to_storage)
+    assert to_storage == StorageType.WORK, "C18:loads_go_to_work"
+    k = len(g.cs)
+    assert from_storage == self._storage, "C03:only_the_chosen_storage"
+    assert k >= 1 and g.cs[k - 1] == n, "C01:checkpoint_present_on_top_of_stack"
+    if g.ck[k - 1] == 4:
+        assert g.cov[k - 1] >= g.N - g.adj, "C01:restart_checkpoint_covers_steps_to_recompute"
+        g.fwd_def = True
+        g.fwd = n
+        g.work_ics = True
+    else:
+        assert n + 1 == g.N - g.adj, "C01:loaded_dependencies_are_those_of_the_step_to_reverse"
+        g.fwd_def = False
+        g.wlo = n
+        g.whi = n + 1
+    if is_move:
+        g.ck.pop()
+        g.cs.pop()
+        g.cov.pop()
+    counters(self, g)
+    assert not self.is_exhausted, "C09:is_exhausted_false_while_actions_remain"
+
+
+def mx_copy(self, g, n, from_storage, to_storage):
+    mx_load(self, g, n, from_storage, to_storage, False)
+
+
+def mx_move(self, g, n, from_storage, to_storage):
+    mx_load(self, g, n, from_storage, to_storage, True)
+
+
+def mx_end_reverse(self, g):
+    assert not g.done, "C02,C09:nothing_after_final_action"
+    assert g.phase == 1, "C02:EndReverse_before_EndForward"
+    assert g.adj == g.N, "C02:EndReverse_when_step0_reversed"
+    g.passes = g.passes + 1
+    assert len(g.cs) == 0, "C04:storage_empty_at_final_EndReverse"
+    assert self._r == g.N, "C08:r_reset_at_EndReverse_iff_more_passes"
+    g.done = True
+    assert self.is_exhausted, "C09:is_exhausted_true_once_final_action_emitted"
+
+
+def mx_stop(self, g):
+    assert g.done, "C02,C09:stream_ends_only_after_final_action"
